@@ -444,6 +444,9 @@ func (g *Gen) loopAssignable(li *loopInfo) map[string]bool {
 				if g.callHasFrameNothing(x) {
 					continue
 				}
+				if f := x.Common().StaticCallee(); f != nil && g.W.isPureLib(f) {
+					continue
+				}
 				if ok := g.callAssignable(x, names); !ok {
 					all = true
 				}
